@@ -62,6 +62,7 @@ func shortestNat(v []byte) bool {
 }
 
 func TestNames(t *testing.T) {
+	defer watchDriver("TestNames")()
 	var names [][]jc
 	readNdjson(os.Getenv("VERIF_NAMES"), func(line []byte) {
 		var j []jc
